@@ -154,6 +154,27 @@ def check(run):
                                           "the exported metadata then names variables absent from the dataset")
                     if not sites:
                         run.incomplete("F-GUARD/topology-names", c, where(f), "no call site of _encode_ugrid found")
+    # ---- what the UGRID reader needs to decode unambiguously is written by every connectivity template
+    ug = P.module("uxarray.conventions.ugrid")
+    n_t = 0
+    for name, ci in sorted(ug.defs.items()):
+        if isinstance(ci, ConstInfo) and name.endswith("_CONNECTIVITY_ATTRS"):
+            val = P.const_value(ci)
+            if not isinstance(val, dict):
+                continue
+            n_t += 1
+            c = f"conventions/ugrid.py:{name}:decoding-keys"
+            probs = []
+            if val.get("start_index") != 0:
+                probs.append("no 'start_index': 0 - the UGRID reader then infers the base as the smallest index in use, which shifts every index of a grid whose node/face 0 is not referenced")
+            # edge_node_connectivity never contains padding (every edge has exactly two nodes): no fill value to declare
+            if "_FillValue" not in val and name != "EDGE_NODE_CONNECTIVITY_ATTRS":
+                probs.append("no '_FillValue'")
+            if probs:
+                run.violation("F-TABLE/writer-reader-keys", c, f"uxarray/conventions/ugrid.py:{ci.node.lineno}", "; ".join(probs))
+            else:
+                run.holds("F-TABLE/writer-reader-keys", c, f"uxarray/conventions/ugrid.py:{ci.node.lineno}", "start_index = 0 and _FillValue declared")
+    run.floor("F-TABLE/writer-reader-keys", n_t, 7)
     # ---- non-serialisable attrs on variables stored in _ds
     stripped = _attrs_stripped_by_encoder(P, f)
     run.stats["attrs_stripped_by_ugrid_encoder"] = sorted(f"{v}.{k}" for v, k in stripped)
